@@ -142,9 +142,12 @@ def run_case(case, work, rec):
         chk = os.path.join(d, "restart00020")
         m = chkgen.gen_chk(path=chk, **dict(case["gen"], nlevels=1))
         ref = gen.gen_model(1, ndims=3, nlevels=1, names=["density"] + [f"Y({s})" for s in SPECIES[:m.nspecies]], bf=4, base_blocks=(1, 1))
-        refp = os.path.join(d, "pltref")
+        # every other case the reference plotfile sits where the default output lands once it has moved aside from the
+        # checkpoint (`restart00020_plt`: what an earlier default conversion of this checkpoint left there)
+        refp = os.path.join(d, "restart00020_plt" if (case["sel_seed"] % 2 == 0 and form == "cli") else "pltref")
         gen.write_plotfile(ref, refp)
         h0 = tree_hash(chk)
+        hr0 = tree_hash(refp)
         before = set(os.listdir(d))
         pools.CTL.reset(mode="inproc", seed=1)
         poison.set_poison(np.nan)
@@ -163,6 +166,10 @@ def run_case(case, work, rec):
         if tree_hash(chk) != h0:
             rec.violation(f"conversion with the default output ({form}) wrote into a checkpoint whose directory name "
                           f"holds no 'chk' (restart00020)", key=key, witness={"new_beside": new, "raised": repr(exc)[:200]})
+        elif form == "cli" and tree_hash(refp) != hr0:
+            rec.violation(f"conversion with the default output ({form}) wrote into the plotfile given as the source of the "
+                          f"species names ({os.path.basename(refp)} beside restart00020)", key=key,
+                          witness={"new_beside": new, "raised": repr(exc)[:200]})
         elif exc is None and not new:
             rec.violation(f"conversion with the default output ({form}) of checkpoint 'restart00020' returned normally "
                           f"but no plotfile appeared beside it", key=key)
